@@ -50,7 +50,7 @@ func faultRunJSON(res *xferResult) map[string]interface{} {
 	out := map[string]interface{}{
 		"send": errClass(res.sendErr, res.sendRet), "recv": errClass(res.recvErr, res.recvRet),
 		"torn": res.tornDown, "send_after_tear": res.sendAfterTear, "recv_after_tear": res.recvAfterTear,
-		"alive": res.alive, "alive_at": res.aliveAt, "late": []int32{res.late[0], res.late[1]},
+		"alive": res.alive, "alive_at": res.aliveAt, "stacks": res.stacks, "late": []int32{res.late[0], res.late[1]},
 	}
 	if res.recvErr != nil {
 		out["recverr"] = res.recvErr.Error()
